@@ -320,8 +320,27 @@ TXQuickSel(c) ==
   \/ (c.pat = 1 /\ c.pl = "top" /\ (c.fl = "" \/ c.api = "replaceAll"))
   \/ (c.pl = "top" /\ <<c.ct, c.api>> \in {<<"lit", "match">>, <<"str", "match">>, <<"str", "search">>, <<"new", "exec">>})
   \/ (c.pat = 2 /\ c.fl \in {"", "g"} /\ <<c.ct, c.api>> \in {<<"lit", "test">>, <<"str", "search">>, <<"call", "replace">>, <<"copy", "split">>})
-TXCases == {c \in TXAll : TXValid(c) /\ (~Quick \/ TXQuickSel(c))} \cup {[k |-> "x", j |-> j] : j \in 1..Len(TXOther)}
-TXText(c) == IF c.k = "rx" THEN TXSrc(c) ELSE TXOther[c.j]
+\* slot-heavy functions (kind "sl"): n variables of one function are locals / cells captured by an inner function / free
+\* variables of a function two levels down, one of them (first, middle, last declared) is used.  Which slot the used
+\* variable gets decides whether an operand fits one byte, i.e. whether the program runs or is refused: the outcome must not
+\* depend on the order in which the host iterates a set of names (n around the 8-bit boundary and well beyond it).
+SLDigit == <<"0", "1", "2", "3", "4", "5", "6", "7", "8", "9">>
+RECURSIVE SLNum(_)
+SLNum(n) == IF n < 10 THEN SLDigit[n + 1] ELSE SLNum(n \div 10) \o SLDigit[(n % 10) + 1]
+RECURSIVE SLRange(_, _)             \* balanced: the recursion is log n deep (a linear one overflowed TLC's stack at n = 254)
+SLRange(lo, hi) == IF lo > hi THEN "" ELSE IF lo = hi THEN "var v" \o SLNum(lo) \o "; "
+                   ELSE LET mid == (lo + hi) \div 2 IN SLRange(lo, mid) \o SLRange(mid + 1, hi)
+SLDecls(n) == SLRange(0, n - 1)
+SLUsed(c) == "v" \o SLNum(CASE c.u = 0 -> 0 [] c.u = 1 -> c.n \div 2 [] OTHER -> c.n - 1)
+SLSrc(c) ==
+  LET d == SLDecls(c.n)  v == SLUsed(c)
+  IN CASE c.sh = "locals" -> "function F() { " \o d \o v \o " = 7; return " \o v \o " + 1; } String(F());"
+       [] c.sh = "cells" -> "function F() { " \o d \o v \o " = 7; var g = function () { return " \o v \o " + 1; }; return g(); } String(F());"
+       [] c.sh = "frees" -> "function F() { " \o d \o v \o " = 7; return function () { return function () { return " \o v \o " + 1; }; }; } String(F()()());"
+       [] OTHER -> "function F() { " \o d \o "var g = function () { " \o v \o " = 3; v0 = 4; return " \o v \o " + v0; }; return g() + " \o v \o "; } String(F());"
+SLCases == [k : {"sl"}, sh : {"locals", "cells", "frees", "manycells"}, n : (IF Quick THEN {254, 256, 300} ELSE {200, 254, 255, 256, 257, 300, 600}), u : {0, 1, 2}]
+TXCases == {c \in TXAll : TXValid(c) /\ (~Quick \/ TXQuickSel(c))} \cup {[k |-> "x", j |-> j] : j \in 1..Len(TXOther)} \cup SLCases
+TXText(c) == IF c.k = "rx" THEN TXSrc(c) ELSE IF c.k = "sl" THEN SLSrc(c) ELSE TXOther[c.j]
 
 \* ======================= programs and histories ============================================================================
 ProgItems == {[fam |-> "CO", c |-> c] : c \in COCases} \cup {[fam |-> "FF", c |-> c] : c \in FFCases}
